@@ -2,8 +2,9 @@ from collections.abc import Iterator
 
 from xsdata.codegen.mixins import HandlerInterface
 from xsdata.codegen.models import AttrType, Class
+from xsdata.codegen.utils import ClassUtils
 from xsdata.models.enums import DataType
-from xsdata.utils import collections
+from xsdata.utils import collections, text
 from xsdata.utils.namespaces import build_qname
 
 
@@ -20,6 +21,8 @@ class VacuumInnerClasses(HandlerInterface):
            replace the forward reference with the inner extension reference.
         3. Empty nested complexContent with no restrictions or extensions,
            we can replace these references with xs:anySimpleType
+        4. Inner classes whose names only differ in case or punctuation
+           would get the same class name, append an index to the later ones.
     """
 
     __slots__ = ()
@@ -36,6 +39,8 @@ class VacuumInnerClasses(HandlerInterface):
                 self.remove_inner(target, inner)
             elif inner.qname == target.qname:
                 self.rename_inner(target, inner)
+
+        self.rename_duplicate_inners(target)
 
     @classmethod
     def remove_inner(cls, target: Class, inner: Class):
@@ -77,6 +82,25 @@ class VacuumInnerClasses(HandlerInterface):
 
         for attr_type in cls.find_attr_types(target, old_qname):
             attr_type.qname = inner.qname
+
+    @classmethod
+    def rename_duplicate_inners(cls, target: Class):
+        """Rename the inner classes that would end up with the same class name.
+
+        Args:
+            target: The target class instance
+        """
+        reserved: set[str] = set()
+        for inner in target.inner:
+            if text.alnum(inner.name) in reserved:
+                old_qname = inner.qname
+                name = ClassUtils.unique_name(inner.name, reserved)
+                inner.qname = build_qname(inner.target_namespace, name)
+
+                for attr_type in cls.find_attr_types(target, old_qname):
+                    attr_type.qname = inner.qname
+
+            reserved.add(text.alnum(inner.name))
 
     @classmethod
     def find_attr_types(cls, target: Class, qname: str) -> Iterator[AttrType]:
